@@ -587,10 +587,82 @@ LEVEL_TEXT = ('Theorems (Props/C19.v, all closed under the global context) over 
               'carries the eight L100 column names (C19_autodetect, C19_few_tokens_not_claimed); _partial: per-cell mask/value round trip and second '
               'cycle for codes that are 7-digit decimals (C19_cell_roundtrip_partial, C19_second_cycle_cell_partial); WHOLE FILES: the header state machine for '
               'any number of description / comment lines (C19_header_state_machine) and reader-on-writer-output up to the first data row with names, order, '
-              'units, codes (C19_read_write_meta_partial, C19_line9_units, C19_count_lines_one_line); the data stage for whole files is still '
-              'UNPROVED (comment), evaluated by vm_compute (C19_domain_inhabited, C19_repaired_cases) and compared with the library on every case; '
+              'units, codes (C19_read_write_meta_partial, C19_line9_units, C19_count_lines_one_line); the data stage for any number of rows / columns (C19_data_stage, C19_written_columns) and the '
+              'WHOLE round trip header + data: impl_roundtrip f = Some (... expected_vars f) on the boolean side conditions header_ok / data_ok '
+              '(C19_roundtrip_whole_partial); tie T: the line classification is the source\'s if/elif chain over the regenerated line-number '
+              'expressions and the declared count is the source\'s expression (C19_classify_is_source, C19_header_count_is_source, coq/Gen/IcarttSrc.v); '
+              'still UNPROVED (comment): expected_vars = spec_roundtrip on dom and the closure under to_file for the second cycle; evaluated by vm_compute (C19_domain_inhabited, C19_repaired_cases) and compared with the library on every case; '
               '_refuted = remaining known findings: C19_indep_code_refuted, C19_mask_long_code_refuted, C19_value_collision_refuted, '
               'C19_name_slash_refuted, C19_unit_comma_refuted. Tie H: text line by line, reader result, getreader class, second cycle.')
 LEVEL_NOTE = ('Trusted: Coq kernel + vm_compute; the harness; binary64 <-> <=15-digit decimal round trip and glibc %.6e rounding (checked per case); '
               'numpy.genfromtxt semantics as modelled; date-line parsing not modelled.')
 TECHNIQUE = 'Coq proof (induction over variables / attributes / header lines) + vm_compute refutation witnesses + differential correspondence'
+
+
+# ----------------------------------------------------------------------------- tie T: header arithmetic from the source
+def translate():
+    """Regenerates coq/Gen/IcarttSrc.v from /repo's icarttfiles/ffi1001.py: the module constants PI_LINE .. MISSING_LINE, the four
+    line-number expressions of ffi1001.__init__ and the header-count expression of ncf2ffi1001 (fail-closed)."""
+    import ast, re
+    from translate import py2coq as P
+    path = os.path.join(C.SRC, 'PseudoNetCDF', 'icarttfiles', 'ffi1001.py')
+    out, lines = [], ['(* GENERATED by harness/props/c19.py translate() from icarttfiles/ffi1001.py - do not edit *)',
+                      'From Coq Require Import ZArith.', 'Local Open Scope Z_scope.', '']
+    try:
+        tree = ast.parse(open(path).read())
+    except Exception as e:
+        return [dict(anchor='ffi1001.py', ok=False, detail=str(e)[:200])]
+
+    def emit(anchor, coqname, node, params):
+        try:
+            term = P.expr(node, P.Ctx())
+            free = sorted(set(re.findall(r'\bv_[A-Za-z_][A-Za-z0-9_]*', term)))
+            want = ['v_' + q for q in params]
+            if any(fv not in want for fv in free):
+                raise P.Untranslatable('free variables %s, expected %s' % (free, want))
+            lines.append('Definition %s %s: Z := %s.' % (coqname, ''.join('(v_%s : Z) ' % q for q in params), term))
+            out.append(dict(anchor=anchor, ok=True, detail=term))
+        except Exception as e:
+            lines.append('(* %s: NOT TRANSLATED *)' % coqname)
+            out.append(dict(anchor=anchor, ok=False, detail='%s: %s' % (type(e).__name__, str(e)[:200])))
+
+    def single(nodes, what):
+        if len(nodes) != 1:
+            raise P.Untranslatable('%s: expected exactly one, found %d' % (what, len(nodes)))
+        return nodes[0]
+
+    consts = ['PI_LINE', 'ORG_LINE', 'PLAT_LINE', 'MISSION_LINE', 'VOL_LINE', 'DATE_LINE', 'TIME_INT_LINE', 'UNIT_LINE',
+              'DATE_VAR_LINE', 'SCALE_LINE', 'MISSING_LINE']
+    for cn in consts:
+        try:
+            node = single([st.value for st in tree.body if isinstance(st, ast.Assign) and len(st.targets) == 1
+                           and isinstance(st.targets[0], ast.Name) and st.targets[0].id == cn], cn)
+            emit('ffi1001.py:' + cn, cn, node, [])
+        except Exception as e:
+            out.append(dict(anchor='ffi1001.py:' + cn, ok=False, detail=str(e)[:200]))
+    try:
+        cls = single([st for st in tree.body if isinstance(st, ast.ClassDef) and st.name == 'ffi1001'], 'class ffi1001')
+        init = single([st for st in cls.body if isinstance(st, ast.FunctionDef) and st.name == '__init__'], '__init__')
+        for nm, params in [('LAST_VAR_DESC_LINE', ['len_missing']), ('SPECIAL_COMMENT_COUNT_LINE', ['LAST_VAR_DESC_LINE']),
+                           ('LAST_SPECIAL_COMMENT_LINE', ['SPECIAL_COMMENT_COUNT_LINE', 'n_special_comments']),
+                           ('USER_COMMENT_COUNT_LINE', ['len_missing', 'n_special_comments'])]:
+            try:
+                node = single([st.value for st in ast.walk(init) if isinstance(st, ast.Assign) and len(st.targets) == 1
+                               and isinstance(st.targets[0], ast.Name) and st.targets[0].id == nm], nm)
+                emit('ffi1001.__init__:' + nm, nm, node, params)
+            except Exception as e:
+                out.append(dict(anchor='ffi1001.__init__:' + nm, ok=False, detail=str(e)[:200]))
+    except Exception as e:
+        out.append(dict(anchor='ffi1001.__init__', ok=False, detail=str(e)[:200]))
+    try:
+        wr = single([st for st in tree.body if isinstance(st, ast.FunctionDef) and st.name == 'ncf2ffi1001'], 'ncf2ffi1001')
+        # print('%d, %d' % (<count>, 1001), file=outfile)
+        cands = [n for n in ast.walk(wr) if isinstance(n, ast.BinOp) and isinstance(n.op, ast.Mod) and isinstance(n.left, ast.Constant)
+                 and n.left.value == '%d, %d' and isinstance(n.right, ast.Tuple) and len(n.right.elts) == 2]
+        node = single(cands, "'%d, %d' % (count, 1001)")
+        emit('ncf2ffi1001:header-count', 'header_count_expr', node.right.elts[0], ['len_myattrs', 'len_depvarkeys'])
+        emit('ncf2ffi1001:format-number', 'format_number', node.right.elts[1], [])
+    except Exception as e:
+        out.append(dict(anchor='ncf2ffi1001:header-count', ok=False, detail=str(e)[:200]))
+    P.write_if_changed(os.path.join(C.COQ, 'Gen', 'IcarttSrc.v'), '\n'.join(lines) + '\n')
+    return out
